@@ -69,6 +69,15 @@ def run(ctx):
                         ctx.dist["slice_negative_step_open_or_out_of_range_stop"] += 1
                 elif mode == "list":
                     idx = [rng.randrange(n) for _ in range(rng.randint(1, n + 1))]
+                    if n >= 3 and rng.random() < 0.4:
+                        # a batch of positions that LOOKS like a run (last - first + 1 == count) but is shuffled inside or repeats a row, e.g. [1, 3, 2, 4],
+                        # [0, 2, 2, 3]; also negative positions counted from the end
+                        a_ = rng.randrange(0, n - 2)
+                        b_ = rng.randrange(a_ + 2, n)
+                        mid = [rng.randrange(a_, b_ + 1) for _ in range(b_ - a_ - 1)] if rng.random() < 0.5 else rng.sample(range(a_ + 1, b_), b_ - a_ - 1)
+                        idx = [a_] + mid + [b_]
+                        if rng.random() < 0.3:
+                            idx = [i - n if rng.random() < 0.5 else i for i in idx]
                     sel = idx if rng.random() < 0.5 else np.array(idx)
                 else:
                     mask = [rng.random() < 0.6 for _ in range(n)]
@@ -79,7 +88,7 @@ def run(ctx):
                 except Exception as e:  # noqa
                     res = exc_name(e)
                 want = [row[sl] for row in base] if mode == "slice" else [[row[i] for i in idx] for row in base]
-                mops = [{"op": "select", "idx": idx}]
+                mops = [{"op": "select", "idx": [i % n for i in idx]}]        # the model is asked for the normalised positions
                 case = dict(kind=kind, nUnits=n_units, exprs=exprs, mode=mode, idx=idx)
                 if mode == "slice":
                     case["slice"] = slice_json(sl)
